@@ -13,3 +13,4 @@ void reg_auth();
 void reg_lauth();
 void reg_slot();
 void reg_fs();
+void reg_proxy();
